@@ -26,6 +26,7 @@ def run(ctx):
     F.run_configs(ctx, PID, configs(ctx))
     F.run_recorded(ctx, PID, "random-wide", 40 if ctx.quick else 2000, 40 if ctx.quick else 60, OPS + ["open_iter", "assign", "copy", "docset", "reset"], projects=("P",))
     F.large_workspace(ctx, PID)
+    F.cli_front(ctx, PID)
     ctx.cov["binding_selftest"] = F.selftest(ctx, PID)
 
 
